@@ -51,6 +51,12 @@ var c11Patches = []c11Patch{
 		Text:  "@@\nvar foo, x identifier\n@@\n-import foo \"" + c11P + "\"\n+import foo \"" + c11Q + "\"\n\n foo.x\n",
 		Minus: []impSpec{{"$", c11P}}, Plus: []impSpec{{"$", c11Q}},
 		Site: func(n string, r *rand.Rand) string { return n + ".Thing" }},
+	// the code of the change never spells the package's name: whatever the file calls the import ('_' and '.' too) is
+	// the name the metavariable stands for
+	{Name: "replace-any-driver", Action: "replace-path-metavar",
+		Text:  "@@\nvar foo identifier\nvar x expression\n@@\n-import foo \"" + c11P + "\"\n+import foo \"" + c11Q + "\"\n\n-openDriver(\"old\", x)\n+openDriver(\"new\", x)\n",
+		Minus: []impSpec{{"$", c11P}}, Plus: []impSpec{{"$", c11Q}},
+		Site: func(n string, r *rand.Rand) string { return "openDriver(\"old\", " + fmt.Sprint(r.Intn(9)) + ")" }},
 	{Name: "match-only", Action: "match",
 		Text: "@@\n@@\n import \"" + c11P + "\"\n\n-foo.Old()\n+foo.New()\n",
 		Ctx:  []impSpec{{"", c11P}},
@@ -235,7 +241,7 @@ func init() {
 	core.Register(&core.Prop{
 		ID:    "C11",
 		Level: "exploration",
-		Rule: "cases: 11 import-manipulating patches (replace path, replace any keeping the captured name, match only, delete, delete any, add, add named, name an unnamed import, rename, named->unnamed) x files whose import block has the affected import " +
+		Rule: "cases: 17 patches (replace path, replace any keeping the captured name - also a blank or dot import when the code never spells the name, match only, delete, delete any, add, add named, name an unnamed import, rename, named->unnamed) x files whose import block has the affected import " +
 			"in every form (unnamed, named, named like the package, absent) plus 0-8 other imports (named, blank, dot, several blocks, single lines, commented, unsorted, duplicated, look-alike paths) x remaining uses of the package name {none, elsewhere, only inside the rewritten site}. " +
 			"Oracle over the set of (name, path) specs of input and output: unmentioned imports unchanged and nothing unmentioned added; '+' imports present (captured name for a metavariable name); a '-' import absent iff the output no longer refers to its name or a '+' import takes the name over; " +
 			"a matched import that is still referred to is kept. non-trivial = change applied and file has >=1 unmentioned import; distinct = (patch, form of the affected import, block shape hash, remaining-use class).",
@@ -268,9 +274,18 @@ func runC11(ctx *core.Ctx, idx int) *core.Result {
 	for f := 0; f < 4; f++ {
 		// form of the affected import in the file
 		form := []string{"unnamed", "named-f", "named-foo", "absent", "unnamed", "named-f", "named-like-new-path"}[r.Intn(7)]
+		if strings.HasPrefix(p.Name, "replace-any-driver") && r.Intn(2) == 0 {
+			form = []string{"blank", "dot"}[r.Intn(2)]
+		}
 		var specs []impSpec
 		name := pn
 		switch form {
+		case "blank":
+			specs = append(specs, impSpec{"_", pathP})
+			name = "_"
+		case "dot":
+			specs = append(specs, impSpec{".", pathP})
+			name = "."
 		case "unnamed":
 			specs = append(specs, impSpec{"", pathP})
 		case "named-f":
@@ -324,7 +339,7 @@ func runC11(ctx *core.Ctx, idx int) *core.Result {
 		}
 		useCls := "none"
 		shadow := ""
-		if form != "absent" {
+		if form != "absent" && form != "blank" && form != "dot" {
 			switch r.Intn(7) {
 			case 0:
 				fmt.Fprintf(&body, "\t%s.Unrelated()\n", name)
@@ -410,7 +425,7 @@ func runC11(ctx *core.Ctx, idx int) *core.Result {
 			}
 			res.Ob("applied:"+pnames[pi], 1)
 			// what the file calls the affected import
-			fileName := map[string]string{"unnamed": "", "named-f": "f", "named-foo": pn, "named-like-new-path": qn}[forms[i]]
+			fileName := map[string]string{"unnamed": "", "named-f": "f", "named-foo": pn, "named-like-new-path": qn, "blank": "_", "dot": "."}[forms[i]]
 			resolve := func(s impSpec) impSpec {
 				if s.Name == "$" {
 					if en, ok := extraNames[i][s.Path]; ok {
